@@ -286,4 +286,17 @@ where
     | [] => true
     | k :: ks => Tree.valid k && validList ks
 
+/-- Text, comment and PI nodes are leaves, everywhere below (and including) `t`. -/
+def Tree.contentLeaves : Tree → Bool
+  | .node v ks =>
+    (match v with
+      | .text _ => ks.isEmpty
+      | .comment _ => ks.isEmpty
+      | .pi _ _ => ks.isEmpty
+      | _ => true) && leavesList ks
+where
+  leavesList : List Tree → Bool
+    | [] => true
+    | k :: ks => Tree.contentLeaves k && leavesList ks
+
 end XotModel
